@@ -78,7 +78,9 @@ type scriptCase struct {
 	Pred     string      `json:"pred"`            // "" = retry.DefaultPredicate; else <code><R|S|F>,...;d<rule>;e<rule>
 	Method   string      `json:"method"`          // HTTP method ("" = PUT)
 	DefaultPolicy bool   `json:"default_policy"`  // use retry.DefaultPolicy (random jitter: oracle only, no model line)
-	PreAuth  bool        `json:"pre_auth"`        // op T only: the stack is the auth client, the request already carries Authorization (no challenge handling)
+	PreAuth  bool        `json:"pre_auth"`
+	TokenScript []behaviour `json:"token_script"` // op Q: what the token service answers
+	TokenPost   bool        `json:"token_post"`   // op Q: OAuth2 POST (form body) instead of the distribution GET        // op T only: the stack is the auth client, the request already carries Authorization (no challenge handling)
 	Data     string      `json:"data"`            // hex
 	BigLen   int         `json:"big_len"`         // >0: data is generated (pattern), oracle only
 	Script   []behaviour `json:"script"`
@@ -162,7 +164,23 @@ func (c *scriptCase) modelLine() string {
 	if len(opts) > 0 {
 		o = strings.Join(opts, ",")
 	}
-	return fmt.Sprintf("%s %s %d %d %d %s %d %s %s%s %s %s %s", c.Op, predToken(c.Pred), c.MaxRetry, c.Min, c.Max, joinInts(c.Tbl), c.Dflt, cn, c.Manifest, c.Body, d, sc, o)
+	line := fmt.Sprintf("%s %s %d %d %d %s %d %s %s%s %s %s %s", c.Op, predToken(c.Pred), c.MaxRetry, c.Min, c.Max, joinInts(c.Tbl), c.Dflt, cn, c.Manifest, c.Body, d, sc, o)
+	if c.Op == "Q" {
+		tb := "G"
+		if c.TokenPost {
+			tb = "P" + hex.EncodeToString([]byte(tokenForm))
+		}
+		ts := "-"
+		if len(c.TokenScript) > 0 {
+			p := make([]string, len(c.TokenScript))
+			for i, b := range c.TokenScript {
+				p[i] = b.String()
+			}
+			ts = strings.Join(p, ";")
+		}
+		line += " " + tb + " " + ts
+	}
+	return line
 }
 
 // ---------------------------------------------------------------- scripted server
@@ -248,6 +266,9 @@ func (b behaviour) shape() *errShape {
 	return nil
 }
 
+// the form fetchOAuth2Token posts for the credential, service and scope of these cases
+const tokenForm = "client_id=oras-go&grant_type=password&password=p&scope=repository%3Ar%3Apull&service=scripted&username=u"
+
 const indexedManifestJSON = `{"schemaVersion":2,"mediaType":"application/vnd.oci.image.manifest.v1+json","config":{"mediaType":"application/vnd.oci.empty.v1+json","digest":"sha256:44136fa355b3678a1146ad16f7e8649e94fb4fc21fe77e8310c060f61caaff8a","size":2},"layers":[]}`
 
 var errPred = errors.New("scripted: predicate refuses this answer")
@@ -278,6 +299,7 @@ type server struct {
 	tokenScript   []behaviour
 	tokenPos      int
 	tokenLog      []attemptRec
+	lastToken     bool // the last scripted request went to the token service
 }
 
 func (s *server) RoundTrip(req *http.Request) (*http.Response, error) {
@@ -305,13 +327,26 @@ func (s *server) RoundTrip(req *http.Request) (*http.Response, error) {
 			}
 			req.Body.Close()
 		}
+		rec.ctxEnded = req.Context().Err() != nil
 		s.tokenLog = append(s.tokenLog, rec)
+		s.lastToken, s.lastShape, s.lastCode = true, nil, 0
+		if rec.ctxEnded {
+			return nil, req.Context().Err()
+		}
 		if b.Lat > 0 {
-			time.Sleep(time.Duration(b.Lat))
+			tm := time.NewTimer(time.Duration(b.Lat))
+			select {
+			case <-req.Context().Done():
+				tm.Stop()
+				return nil, req.Context().Err()
+			case <-tm.C:
+			}
 		}
-		if sh := b.shape(); sh != nil {
-			return nil, sh.err
+		s.lastShape = b.shape()
+		if s.lastShape != nil {
+			return nil, s.lastShape.err
 		}
+		s.lastCode = b.Code
 		if b.Code != 200 {
 			return mk(b.Code, ""), nil
 		}
@@ -326,6 +361,7 @@ func (s *server) RoundTrip(req *http.Request) (*http.Response, error) {
 		s.tokens++
 		return mk(200, fmt.Sprintf(`{"access_token":"tok%d","token":"tok%d"}`, s.tokens, s.tokens)), nil
 	}
+	s.lastToken = false
 	b := behaviour{Kind: "S", Code: 200, Read: -1}
 	if s.pos < len(s.script) {
 		b = s.script[s.pos]
@@ -392,6 +428,7 @@ type scriptObs struct {
 	res    string
 	end    int64
 	log    []attemptRec
+	tokenLog []attemptRec
 	panicv any
 }
 
@@ -399,6 +436,12 @@ type scriptObs struct {
 // (the only error the auth client produces by itself then is its refusal to re-send a body it
 // cannot rewind) -- keeps the classification independent of the wording of that error.
 func classify(resp *http.Response, err error, last *errShape, rewindHint string) string {
+	return classifyTok(resp, err, last, rewindHint, false)
+}
+
+// tokenLast: the last scripted request went to the token service (an error response is the
+// token service's then)
+func classifyTok(resp *http.Response, err error, last *errShape, rewindHint string, tokenLast bool) string {
 	if err == nil {
 		if resp == nil {
 			return "NILNIL"
@@ -415,6 +458,9 @@ func classify(resp *http.Response, err error, last *errShape, rewindHint string)
 	case errors.Is(err, errPred):
 		return "EPRED"
 	case errors.As(err, &er):
+		if tokenLast {
+			return fmt.Sprintf("ETOKEN%d", er.StatusCode)
+		}
 		return fmt.Sprintf("RESP%d", er.StatusCode)
 	case strings.Contains(err.Error(), "request body is not rewindable"):
 		return "ENOTREWINDABLE"
@@ -428,8 +474,8 @@ func classify(resp *http.Response, err error, last *errShape, rewindHint string)
 }
 
 func (s *server) rewindHint(c *scriptCase) string {
-	if s.lastCode != 401 || s.lastShape != nil {
-		return ""
+	if s.lastShape != nil || !(s.lastCode == 401 && !s.lastToken || s.lastCode == 200 && s.lastToken) {
+		return "" // (after a challenge, or after the token for it arrived)
 	}
 	switch c.Body[0] {
 	case 'O':
@@ -511,9 +557,14 @@ func execScript(t *testing.T, c *scriptCase) scriptObs {
 	synctest.Test(t, func(t *testing.T) {
 		srv := &server{start: time.Now(), script: c.Script}
 		var authClient *auth.Client
-		if c.Op == "A" || c.Op == "W" || c.Op == "V" || c.Op == "U" || c.Op == "X" || c.PreAuth {
+		if c.Op == "A" || c.Op == "W" || c.Op == "V" || c.Op == "U" || c.Op == "X" || c.Op == "Q" || c.PreAuth {
 			authClient = &auth.Client{Cache: auth.NewCache(),
 				Credential: auth.StaticCredential("registry.example", auth.Credential{Username: "u", Password: "p"})}
+		}
+		if c.Op == "Q" {
+			// the token request is part of the case: scripted token service, GET or OAuth2 POST
+			srv.tokenScripted, srv.tokenScript = true, c.TokenScript
+			authClient.ForceAttemptOAuth2 = c.TokenPost
 		}
 		if c.Op == "W" {
 			// warm the token cache: one challenged GET, so that a Bearer token for the
@@ -675,13 +726,14 @@ func execScript(t *testing.T, c *scriptCase) scriptObs {
 				req.Header.Set("Authorization", "Bearer preset")
 			}
 			resp, err := client.Do(req)
-			obs.res = classify(resp, err, srv.lastShape, srv.rewindHint(c))
+			obs.res = classifyTok(resp, err, srv.lastShape, srv.rewindHint(c), srv.lastToken)
 			if resp != nil {
 				resp.Body.Close()
 			}
 		}()
 		obs.end = int64(time.Since(srv.start))
 		obs.log = srv.log
+		obs.tokenLog = srv.tokenLog
 	})
 	return obs
 }
@@ -742,6 +794,15 @@ func scriptCaseRun(t *testing.T, c *scriptCase) {
 	line := fmt.Sprintf("%s end=%d first=%s", obs.res, obs.end, showAttempts(sends[0], data))
 	if c.Op != "T" {
 		line += " second=" + showAttempts(sends[1], data) + " third=" + showAttempts(sends[2], data)
+	}
+	var form []byte
+	if c.TokenPost {
+		form = []byte(tokenForm)
+	}
+	if c.Op == "Q" {
+		line = fmt.Sprintf("%s end=%d first=%s token=%s second=%s", obs.res, obs.end, showAttempts(sends[0], data),
+			showAttempts(obs.tokenLog, form), showAttempts(sends[1], data))
+		run.Count(fmt.Sprintf("token_attempts_%d", len(obs.tokenLog)))
 	}
 	upload := c.Op == "U" || c.Op == "u" || c.Op == "X"
 	if upload {
@@ -806,6 +867,25 @@ func scriptCaseRun(t *testing.T, c *scriptCase) {
 			break
 		}
 	}
+	// O1t: the token request (op Q) carries its whole form on every attempt, and stays the same request
+	for i, r := range obs.tokenLog {
+		want := form
+		if r.beh.Read >= 0 && r.beh.Read < len(want) {
+			want = want[:r.beh.Read]
+		}
+		wantMethod := http.MethodGet
+		if c.TokenPost {
+			wantMethod = http.MethodPost
+		}
+		if !bytes.Equal(r.got, want) {
+			fail("body-truncated", fmt.Sprintf("token request attempt %d received %q, its form is %q and the service read up to %d", i, r.got, form, r.beh.Read))
+			break
+		}
+		if r.method != wantMethod || r.clen != int64(len(form)) || r.url != obs.tokenLog[0].url || r.ctype != obs.tokenLog[0].ctype {
+			fail("request-changed", fmt.Sprintf("token request attempt %d: %s %s Content-Length %d Content-Type %q", i, r.method, r.url, r.clen, r.ctype))
+			break
+		}
+	}
 	// O1b: a re-sent request is the same request: method, URL, Content-Type as on the first attempt
 	// with that method, and the Content-Length the caller (generator) gave it -- a real transport
 	// frames the body by it, so a stale or reset value truncates or breaks the upload
@@ -837,7 +917,7 @@ func scriptCaseRun(t *testing.T, c *scriptCase) {
 	if c.Op == "T" && len(sends[1]) > 0 {
 		fail("wrong-result", "the Authorization header changed between attempts of a plain transport")
 	}
-	for si, send := range sends {
+	for si, send := range append(append([][]attemptRec(nil), sends...), obs.tokenLog) {
 		if len(send) > limit {
 			fail("too-many-attempts", fmt.Sprintf("send %d made %d attempts, MaxRetry=%d", si, len(send), c.MaxRetry))
 		}
@@ -887,7 +967,7 @@ func scriptCaseRun(t *testing.T, c *scriptCase) {
 		if endAt < 0 {
 			endAt = 0
 		}
-		for i, r := range obs.log {
+		for i, r := range append(append([]attemptRec(nil), obs.log...), obs.tokenLog...) {
 			// the first request of the call is the caller's; every later one is a re-send decided by the stack
 			if i > 0 && (r.t > c.Cancel || r.ctxEnded) {
 				fail("cancel-ignored", fmt.Sprintf("attempt %d started at %d on a context that ended at %d", i, r.t, c.Cancel))
@@ -901,6 +981,34 @@ func scriptCaseRun(t *testing.T, c *scriptCase) {
 			fail("cancel-result", "call ended with the context but did not return its error")
 		}
 	}
+	// O7 (op Q, the call ended with the token request): the token service's last answer decides
+	if c.Op == "Q" && obs.res != "ECTX" && len(obs.tokenLog) > 0 && len(sends[1]) == 0 {
+		tl := obs.tokenLog[len(obs.tokenLog)-1]
+		var want []string
+		switch {
+		case tl.beh.shape() != nil:
+			want = []string{"EERR" + tl.beh.shape().flags()}
+		case tl.beh.Code == 200:
+			// the token arrived and nothing was sent again: only a body that cannot be rewound explains it
+			if c.Body[0] == 'O' {
+				want = []string{"ENOTREWINDABLE"}
+			} else if c.Body[0] == 'G' {
+				want = []string{"EGETBODY"}
+			}
+		default:
+			want = []string{fmt.Sprintf("ETOKEN%d", tl.beh.Code)}
+			if c.Pred != "" && predRule(c.Pred, tl.beh) == 'F' && len(obs.tokenLog)-1 < c.MaxRetry {
+				want = []string{"EPRED"}
+			}
+		}
+		ok := false
+		for _, w := range want {
+			ok = ok || w == obs.res
+		}
+		if !ok {
+			fail("wrong-result", fmt.Sprintf("the token service's last answer was %s, expected %v", outcomeTruth(c.Pred, tl.beh), want))
+		}
+	} else
 	// O7: the result is the last answer (or a rewind error of the auth client)
 	if obs.res != "ECTX" && len(obs.log) > 0 {
 		last := obs.log[len(obs.log)-1]
@@ -1144,7 +1252,7 @@ func genDuration(r *common.Rand) int64 {
 }
 
 func genScript(r *common.Rand, big bool) *scriptCase {
-	c := &scriptCase{Op: common.Pick(r, []string{"T", "T", "T", "A", "A", "A", "W", "W", "V", "V", "U", "U", "u", "X", "X"}), Cancel: -1}
+	c := &scriptCase{Op: common.Pick(r, []string{"T", "T", "T", "A", "A", "A", "W", "W", "V", "V", "U", "U", "u", "X", "X", "Q", "Q", "Q"}), Cancel: -1}
 	c.MaxRetry = common.Pick(r, []int{0, 1, 2, 3, 3, 5, 5, 8, -1})
 	c.Min = genDuration(r)
 	if c.Min < 0 && r.Chance(3, 4) {
@@ -1246,6 +1354,34 @@ func genScript(r *common.Rand, big bool) *scriptCase {
 			sc = append(sc, genBehaviour(r, c.Op != "u", true))
 		}
 		c.Script = append(sc, behaviour{Kind: "S", Code: 201, Read: -1})
+	}
+	if c.Op == "Q" {
+		// a Bearer challenge early on, and a token service that needs a few attempts
+		c.Manifest, c.PreAuth = "", false
+		c.TokenPost = r.Chance(1, 2)
+		k := r.Intn(3)
+		for len(c.Script) <= k {
+			c.Script = append(c.Script, genBehaviour(r, true, true))
+		}
+		c.Script[k] = behaviour{Kind: "S", Code: 401, Chal: 2, Read: common.Pick(r, []int{-1, -1, 3}), Lat: int64(r.Intn(10)) * 2}
+		for i := 0; i < k; i++ {
+			if !retryableTruth(c.Pred, c.Script[i]) {
+				c.Script[i] = behaviour{Kind: "S", Code: 503, Read: -1}
+			}
+		}
+		for i := r.Intn(5); i > 0; i-- {
+			b := genBehaviour(r, false, true)
+			if b.Kind == "S" && b.Code >= 300 && b.Code < 400 {
+				b.Code = 503
+			}
+			if b.Read >= 0 {
+				b.Read = r.Intn(120)
+			}
+			c.TokenScript = append(c.TokenScript, b)
+		}
+		if r.Chance(2, 3) {
+			c.TokenScript = append(c.TokenScript, behaviour{Kind: "S", Code: 200, Read: -1, Lat: int64(r.Intn(30)) * 2})
+		}
 	}
 	if c.Op == "W" && len(c.Script) >= 2 {
 		// exercise the cached-token re-send and the fresh-token third send
@@ -1736,7 +1872,7 @@ func replayCases(t *testing.T) {
 			continue
 		}
 		switch head.Op {
-		case "T", "A", "W", "V", "U", "u", "X":
+		case "T", "A", "W", "V", "U", "u", "X", "Q":
 			var c scriptCase
 			if err := json.Unmarshal(js, &c); err != nil {
 				panic(err)
